@@ -288,6 +288,40 @@ pub fn threshold_programs() -> Vec<HistoryCase> {
         out.push(HistoryCase::plain(&format!("threshold-program:wide-{}-late-repeat", m), vec![Doc::plain(b.clone())]));
         out.push(HistoryCase::plain(&format!("threshold-program:wide-{}-late-repeat-later", m), vec![Doc::plain(a), Doc::plain(b)]));
     }
+    // sparse records: a wide record followed by one that lacks K of its columns — K children (and K
+    // attributes) become optional in ONE step, inside one document and across an extension
+    for (m, k) in [(8usize, 1usize), (8, 5), (9, 6), (9, 7), (10, 8), (12, 9), (24, 16), (40, 33), (70, 64), (70, 65)] {
+        let mut row = |cols: &dyn Fn(usize) -> bool, val: &mut dyn FnMut() -> String| {
+            let mut e = Elem::new("row");
+            for i in 0..m {
+                if cols(i) {
+                    e.attrs.push((format!("a{}", i), val()));
+                }
+            }
+            for i in 0..m {
+                if cols(i) {
+                    let mut l = Elem::new(&format!("col{}", i));
+                    l.items.push(Item::Text(val()));
+                    e.items.push(Item::Elem(l));
+                }
+            }
+            e
+        };
+        // the sparse record keeps the first m-k columns / a scattered subset
+        for (shape, keep) in [("tail-missing", Box::new(move |i: usize| i < m - k) as Box<dyn Fn(usize) -> bool>), ("scattered", Box::new(move |i: usize| (i * 7 + 3) % m >= k))] {
+            let full = row(&|_| true, &mut val);
+            let sparse = row(&*keep, &mut val);
+            let mut t = Elem::new("table");
+            t.items.push(Item::Elem(full.clone()));
+            t.items.push(Item::Elem(sparse.clone()));
+            out.push(HistoryCase::plain(&format!("threshold-program:sparse-{}-of-{}-{}-one-doc", k, m, shape), vec![Doc::plain(t)]));
+            let mut t1 = Elem::new("table");
+            t1.items.push(Item::Elem(full));
+            let mut t2 = Elem::new("table");
+            t2.items.push(Item::Elem(sparse));
+            out.push(HistoryCase::plain(&format!("threshold-program:sparse-{}-of-{}-{}-later-doc", k, m, shape), vec![Doc::plain(t1), Doc::plain(t2)]));
+        }
+    }
     // counts: 256 / 257 same-named siblings after one; a parent occurring 256 times
     for k in [255usize, 256, 257] {
         let mut small = Elem::new("r");
